@@ -201,7 +201,7 @@ func Gen(r *core.Rand, req bool, maxBody int) *Spec {
 	s.CT = ctPool[r.Intn(len(ctPool))]
 	if hasBody {
 		n := Size(r, maxBody)
-		kind := r.Pick("text", "text", "utf8", "bin", "badutf", "zero")
+		kind := r.Pick("text", "text", "utf8", "bin", "badutf", "zero", "latebad")
 		switch {
 		case req && r.Chance(1, 5):
 			body, want := Form(r, r.Chance(1, 4))
